@@ -1990,6 +1990,10 @@ func (m Dot11MgmtReassociationReq) SerializeTo(b gopacket.SerializeBuffer, opts 
 	binary.LittleEndian.PutUint16(buf[0:2], m.CapabilityInfo)
 	binary.LittleEndian.PutUint16(buf[2:4], m.ListenInterval)
 
+	// an address shorter than 6 bytes leaves zero bytes
+	for i := 4; i < len(buf); i++ {
+		buf[i] = 0
+	}
 	copy(buf[4:10], m.CurrentApAddress)
 
 	return nil
